@@ -12,7 +12,15 @@ CASES_HEADER = "Require Import Nib.C10.Model Nib.C10.Spec Nib.C10.Check."
 CASE_TYPE = "case"
 MISMATCH_FN = "mismatch"
 VIOLATES_FN = "violates"
-RULE = ("three kinds of cases. (3) params: generated parameter values (valid / invalid in one or several fields) are "
+RULE = ("four kinds of cases. (4) msg-history: 3-9 blocks on ONE keeper in which EVERY vote enters through the real message "
+        "server: MsgAggregateExchangeRatePrevote (sha256 commitment computed by the driver), MsgAggregateExchangeRateVote and "
+        "MsgDelegateFeedConsent pass ValidateBasic and the msg server at the block's height, then oracle.EndBlocker; validator / "
+        "feeder / operator / delegate fields are spelled lower-case (52 %), ALL-UPPER-CASE bech32 (45 %) or mixed-case (3 %, rejected); "
+        "own account / delegated feeder / stranger senders, copy-cat and upper-case-hashed commitments, replayed reveals, "
+        "non-whitelisted or duplicate pairs, rates at the 315-bit limit, optional slash window; observed per block: accept flag of "
+        "every message, staking answers read by the msg server, rates, events, Votes store by key, Prevotes store; the model "
+        "predicts all of it, the checker Pb_mhist tracks the votes cast BY VALIDATOR IDENTITY from the accept flags. non-trivial "
+        "(msg-history) = has a period end with accepted votes. (3) params: generated parameter values (valid / invalid in one or several fields) are "
         "given to the real Params.Validate and to MsgEditOracleParams (sudo sender, full test app); the acceptance must "
         "equal Spec.params_valid, a rejected edit must leave the stored params unchanged. (1) single: one real oracle.EndBlocker call on the x/oracle keeper fixture after a generated staking situation "
         "(1-12 validators, powers 0/1/ties/huge, fractional tokens, unbonded late joiners, undelegated-after-bonding, "
@@ -29,6 +37,10 @@ ASSUMPTIONS = [
     "domain of the property predicate = parameters accepted by Params.Validate (incl. VoteThreshold <= 1 since 662a06f), "
     "bonded power fitting int64, rates being LegacyDec values; no further restriction since 48f939b / 66a0ce3",
     "voting powers are non-negative and their sum fits int64",
+    "message level: the commit hash is symbolic (sha256 injective on salt:rates-string:validator-string), strings are ids; "
+    "the staking answers 'validator exists / is bonded' at delivery are inputs; error classes of refused messages are C11's subject",
+    "votes that enter through genesis import (InitGenesis keeps the Voter string of the file) are outside the property's "
+    "quantifier (coordinator decision) and are not driven; see README 'Observations outside the property'",
 ]
 TRUSTED = ["harness/gen/c10/main.go normal forms (stage sequence, guards, formulas) — prints terms, never verdicts",
            "coq/Lib/Dec.v (LegacyDec arithmetic on raw integers, validated against cosmossdk.io/math)"]
@@ -127,6 +139,105 @@ def _hist_flags(rec):
     return fl
 
 
+def _is_msg(rec_or_inp):
+    inp = rec_or_inp.get("input", rec_or_inp)
+    return inp.get("kind") == "msg"
+
+
+_SP = {"l": "SpLower", "u": "SpUpper", "x": "SpBad"}
+
+
+def _astr(i, sp):
+    return "(mkAStr %d%%nat %s)" % (i, _SP[sp])
+
+
+def _tuples(ts):
+    return "[%s]" % "; ".join("(%d%%nat, %s)" % (t["p"], _z(t["r"])) for t in ts or [])
+
+
+def _msg_case(rec):
+    """strings are named by ids: salts and exchange-rate strings in first-appearance order (the harness builds the
+    rates string as an injective function of the tuple list)"""
+    inp, obs = rec["input"], rec["obs"]
+    p = inp["params"]
+    params = "(mkParams %s %s %s %s %s)" % (_z(p["vp"]), _z(p["thr"]), _z(p["minv"]), _z(p["exp"]), _z(p["band"]))
+    salts, rates = {}, {}
+
+    def sid(x):
+        return salts.setdefault(x, len(salts) + 1)
+
+    def rid(ts):
+        return rates.setdefault(json.dumps(ts or [], sort_keys=True), len(rates) + 1)
+
+    def _env(pre):
+        vals = "[%s]" % "; ".join("mkVal %d%%nat %s %s" % (v["id"], _b(v["bonded"]), _z(v["power"])) for v in pre["order"])
+        return "(mkHEnv %s %d%%nat %s %s [%s])" % (vals, pre["maxv"], _z(pre["btok"]), _z(pre["pr"]),
+                                                 "; ".join("%d%%nat" % w for w in inp["wl"]))
+    steps = []
+    for st, so in zip(inp["steps"], obs["steps"]):
+        ms = []
+        for m, bonded in zip(st["msgs"] or [], so["bonded"]):
+            v, f = _astr(m["val"], m["vsp"]), _astr(m["feeder"], m["fsp"])
+            if m["kind"] == "prevote":
+                h = "(mkHash %d%%nat %d%%nat %s)" % (sid(m.get("salt", "")), rid(m.get("t")), _astr(m.get("hfor", 0), m.get("hsp", "l")))
+                ms.append("MPrevote (mkPMsg %s %s %s %s)" % (v, f, h, _b(bonded)))
+            elif m["kind"] == "vote":
+                ms.append("MVote (mkVMsg %s %s %d%%nat %d%%nat %s %s)" % (v, f, sid(m.get("salt", "")), rid(m.get("t")),
+                                                                      _tuples(m.get("t")), _b(bonded)))
+            else:
+                ms.append("MDelegate (mkDMsg %s %s %s)" % (v, f, _b(bonded)))
+        x = "(mkMStep [%s] %s)" % (";\n      ".join(ms), _z(so["h"]))
+        o = "(mkMObs [%s] %s %s [%s] %s [%s])" % (
+            "; ".join(_b(a) for a in so["acc"]), _b(so["panic"]), _rates(so["rates"]),
+            "; ".join("(%d%%nat, %s)" % (e["p"], _z(e["r"])) for e in so["events"] or []),
+            _votes(so["votes"]),
+            "; ".join("(%d%%nat, %s)" % (pv["voter"], _z(pv["submit"])) for pv in so["prevotes"] or []))
+        steps.append("(%s, %s, %s)" % (_env(so["pre"]), x, o))
+    return "(CMsg %s %s [%s])" % (params, _rates(inp["rates"]), ";\n    ".join(steps))
+
+
+def _msg_flags(rec):
+    inp, obs = rec["input"], rec["obs"]
+    vp = inp["params"]["vp"]
+    fl = set()
+    counted_upper = False
+    pending = {}
+    for st, so in zip(inp["steps"], obs["steps"]):
+        for m, a in zip(st["msgs"] or [], so["acc"]):
+            if m["vsp"] == "x" or m["fsp"] == "x":
+                fl.add("mixed-case-field")
+            if not a:
+                fl.add("refused-%s" % m["kind"])
+                continue
+            if m["vsp"] == "u":
+                fl.add("accepted-%s-upper-validator" % m["kind"])
+            if m["fsp"] == "u":
+                fl.add("accepted-%s-upper-feeder" % m["kind"])
+            if m["feeder"] != m["val"] and m["kind"] != "delegate":
+                fl.add("accepted-from-delegated-feeder")
+            if m["kind"] == "vote":
+                pending[m["val"]] = m["vsp"]
+        if so["panic"]:
+            fl.add("panic")
+            break
+        if (so["h"] + 1) % vp == 0:
+            if so["events"]:
+                fl.add("period-with-quorum")
+                if "u" in pending.values():
+                    fl.add("quorum-with-upper-case-voter")
+            elif pending:
+                fl.add("period-without-quorum-but-votes")
+            else:
+                fl.add("silent-period")
+            pending = {}
+        else:
+            fl.add("mid-period-block")
+        win = inp["params"].get("win") or 0
+        if win and (so["h"] + 1) % win == 0:
+            fl.add("slash-window-end")
+    return fl
+
+
 def _is_params(rec_or_inp):
     inp = rec_or_inp.get("input", rec_or_inp)
     return inp.get("kind") == "params"
@@ -140,6 +251,8 @@ def to_coq_case(rec):
         return "(CParams %s %s %s %s)" % (params, _b(o["validate_ok"]), ed, _b(o["stored_ok"]))
     if _is_hist(rec):
         return _hist_case(rec)
+    if _is_msg(rec):
+        return _msg_case(rec)
     inp, obs = rec["input"], rec["obs"]
     p = inp["params"]
     params = "(mkParams %s %s %s %s %s)" % (_z(p["vp"]), _z(p["thr"]), _z(p["minv"]), _z(p["exp"]), _z(p["band"]))
@@ -175,6 +288,9 @@ def nontrivial(rec):
     if _is_hist(rec):
         fl = _hist_flags(rec)
         return "period-without-quorum-but-votes" in fl or "period-with-quorum" in fl
+    if _is_msg(rec):
+        fl = _msg_flags(rec)
+        return "period-without-quorum-but-votes" in fl or "period-with-quorum" in fl
     if not _period_end(inp):
         return False
     el = _eligible(rec)
@@ -190,6 +306,8 @@ def classify(rec):
         return ["kind:params", "params:validate=%s" % obs["validate_ok"], "params:edit=%s" % obs["edit"]]
     if _is_hist(rec):
         return ["kind:history", "hist-steps=%d" % len(inp["steps"])] + ["hist:" + f for f in sorted(_hist_flags(rec))]
+    if _is_msg(rec):
+        return ["kind:msg-history", "msg-steps=%d" % len(inp["steps"])] + ["msg:" + f for f in sorted(_msg_flags(rec))]
     ks = ["kind:single", "validators=%d" % len(inp["vals"]), "period_end=%s" % _period_end(inp)]
     ks.append("outcome:" + ("panic" if obs["panic"] else "events=%d" % min(len(obs["events"]), 4)))
     el = _eligible(rec)
@@ -232,6 +350,10 @@ def signature(rec):
         return {"kind": "params-acceptance", "validate_ok": obs["validate_ok"], "edit": obs["edit"]}
     if _is_hist(rec):
         return {"kind": "history", "flags": sorted(_hist_flags(rec))}
+    if _is_msg(rec):
+        fl = _msg_flags(rec)
+        return {"kind": "msg-history", "upper_case_voter": "accepted-vote-upper-validator" in fl,
+                "quorum": "period-with-quorum" in fl, "panic": "panic" in fl}
     return {"kind": "panic" if obs["panic"] else "price-update",
             "period_end": _period_end(inp),
             "abstain": any(int(t["r"]) <= 0 for v in inp["votes"] for t in v["t"])}
@@ -240,6 +362,9 @@ def signature(rec):
 def input_size(inp):
     if _is_params(inp):
         return 1
+    if _is_msg(inp):
+        return 10 * len(inp["steps"]) + sum(len(m.get("t") or []) + 3 for st in inp["steps"] for m in st["msgs"] or []) \
+            + 5 * len(inp["vals"]) + len(inp["wl"])
     if _is_hist(inp):
         return 10 * len(inp["steps"]) + sum(len(v["t"]) + 2 for st in inp["steps"] for v in st["votes"] or []) \
             + sum(len(st["prevotes"] or []) for st in inp["steps"]) + 5 * len(inp["vals"])
@@ -270,11 +395,64 @@ def _shrink_hist(inp):
     return out
 
 
+def _shrink_msg(inp):
+    out = []
+    steps = inp["steps"]
+    for k in range(len(steps) - 1, 0, -1):
+        c = copy.deepcopy(inp)
+        c["steps"] = c["steps"][:k]
+        out.append(c)
+    for i in range(len(steps)):
+        if len(steps) > 1 and not steps[i]["msgs"]:
+            c = copy.deepcopy(inp)
+            c["steps"].pop(i)
+            out.append(c)
+        for j in range(len(steps[i]["msgs"] or [])):
+            c = copy.deepcopy(inp)
+            c["steps"][i]["msgs"].pop(j)
+            out.append(c)
+        # a validator's commitment and reveal together
+        vals = sorted({m["val"] for m in steps[i]["msgs"] or []})
+        for v in vals:
+            c = copy.deepcopy(inp)
+            for st in c["steps"]:
+                st["msgs"] = [m for m in st["msgs"] if m["val"] != v]
+            out.append(c)
+    for i in range(len(steps)):
+        for j, m in enumerate(steps[i]["msgs"] or []):
+            if m["fsp"] != "l":
+                c = copy.deepcopy(inp)
+                c["steps"][i]["msgs"][j]["fsp"] = "l"
+                out.append(c)
+            if len(m.get("t") or []) > 1:
+                # the same tuple dropped from every message carrying this rates list (commitment and reveal stay consistent)
+                for k in range(len(m["t"])):
+                    c = copy.deepcopy(inp)
+                    for st in c["steps"]:
+                        for mm in st["msgs"]:
+                            if mm.get("t") == m["t"]:
+                                mm["t"] = mm["t"][:k] + mm["t"][k + 1:]
+                    out.append(c)
+    if inp["params"].get("win"):
+        c = copy.deepcopy(inp)
+        c["params"].pop("win", None)
+        c["params"].pop("mv", None)
+        out.append(c)
+    for i in range(len(inp["wl"])):
+        if len(inp["wl"]) > 1:
+            c = copy.deepcopy(inp)
+            c["wl"].pop(i)
+            out.append(c)
+    return out
+
+
 def shrink_candidates(inp):
     if _is_params(inp):
         return []
     if _is_hist(inp):
         return _shrink_hist(inp)
+    if _is_msg(inp):
+        return _shrink_msg(inp)
     out = []
 
     def variant(f):
@@ -323,8 +501,13 @@ MANIFEST = {
                  "all abstentions leaves the outcome unchanged), C10_expiry_exact (over histories of blocks), "
                  "C10_threshold_within_half_unit, C10_no_panic_in_domain; over histories of vote periods on one keeper: "
                  "C10_history_holds, C10_period_end_clears_votes, C10_price_depends_only_on_votes_of_its_period (a published "
-                 "rate depends only on the votes submitted since the previous period end). The model is run against the real keeper "
-                 "(oracle.EndBlocker on the x/oracle fixture) on generated single calls AND multi-period histories every run and the proved-sound checker "
+                 "rate depends only on the votes submitted since the previous period end); at MESSAGE level (votes enter through "
+                 "prevote / vote / feeder-delegation messages whose address fields are strings in any accepted spelling): "
+                 "C10_msg_history_holds (every EndBlocker outcome satisfies the property w.r.t. the votes cast by validator identity "
+                 "through accepted messages), C10_stored_voter_is_canonical, C10_rate_independent_of_spelling (accept flags and "
+                 "published rates do not depend on the spelling of validator / feeder / operator / delegate fields), "
+                 "C10_raw_voter_string_refuted (a msg server storing the raw message string violates the property). The model is run against the real keeper "
+                 "(oracle.EndBlocker on the x/oracle fixture) on generated single calls, multi-period histories AND message-level histories (every vote through ValidateBasic + the real msg server, upper-case bech32 included) every run and the proved-sound checker "
                  "Pb is evaluated on the implementation's own output. C10_refuted_before_fix proves the pre-d9ae51e code "
                  "violates the property (abstention published as price)."),
         "design_ref": "DESIGN.md §5 C10",
